@@ -46,7 +46,7 @@ def enumerateCIS(G, U, C, D, P, DAG=None):
                 _P[u] = v
             _U = U + [v]
             if DAG is not None:
-                DAG.add_node(ext_hash(_U), U=_U)
+                DAG.add_node(ext_hash(_U), U=list(_U))
                 DAG.add_edge(ext_hash(U), ext_hash(_U))
             yield from enumerateCIS(G, _U, C + new_C, _D, _P, DAG)
         elif is_existing_extension(U, v, D) and DAG is not None:
@@ -56,7 +56,7 @@ def enumerateCIS(G, U, C, D, P, DAG=None):
 def _node_induced_connected_subgraphs(G, anchor, DAG=None):
     U = [anchor]
     if DAG is not None:
-        DAG.add_node(ext_hash(U), U=U)
+        DAG.add_node(ext_hash(U), U=list(U))
     C = list(G.neighbors(anchor))
     D = [np.inf] * len(G.nodes)
     P = [-np.inf] * len(G.nodes)
